@@ -49,8 +49,30 @@ let n_of_decimal (s : string) : n =
   end
 let num s = n_of_decimal s
 
+(* scripts token: "S" + entries "pid=inv|inv" separated by ';' (see harness/src/app.rs) *)
+let parse_scripts (tok : string) =
+  let body = String.sub tok 1 (String.length tok - 1) in
+  String.split_on_char ';' body |> List.filter (fun e -> e <> "") |> List.map (fun ent ->
+    match String.index_opt ent '=' with
+    | None -> failwith "script entry"
+    | Some i ->
+      let pid = String.sub ent 0 i and invs = String.sub ent (i + 1) (String.length ent - i - 1) in
+      let acts inv = String.split_on_char ',' inv |> List.filter (fun a -> a <> "") |> List.map (fun a ->
+          if a.[0] = 'r' then ARemove (num (String.sub a 1 (String.length a - 1)))
+          else begin
+            let j = String.index a '.' in
+            let p = num (String.sub a 1 (j - 1)) in
+            let k = String.sub a (j + 1) (String.length a - j - 1) in
+            let kind = match k.[0] with
+              | 'R' -> KRec | 'P' -> KPes
+              | _ -> KScript (num (String.sub k 1 (String.length k - 1))) in
+            AInsert (p, kind)
+          end) in
+      (num pid, List.map acts (String.split_on_char '|' invs)))
+
 (* (what the model of the code does, what the specification demands); they differ only where a
    known finding is recorded (C14: copyright polarity) *)
+let fuzzing = ref false
 let same x = (x, x)
 let run_case (toks : string list) : n list option * n list option =
   match toks with
@@ -62,12 +84,19 @@ let run_case (toks : string list) : n list option * n list option =
   | ["TSW"; a; b] -> same (run_tsw (num a) (num b))
   | ["CRP"; a; b] -> same (run_crp (num a) (num b))
   | ["CRS"; h] -> same (run_crs (bytes_of_tok h))
+  | ["CRC"; h] -> let b = bytes_of_tok h in (run_crc b, Some [s_crc b])
+  | ["DSC"; h] -> same (run_dsc (bytes_of_tok h))
+  | ["PAT"; h] -> same (run_pat (bytes_of_tok h))
+  | ["PMT"; h] -> same (run_pmt (bytes_of_tok h))
+  | "SEC" :: f :: pk -> same (run_sec (num (string_of_int ((int_of_string f) lor (if !fuzzing then 8 else 0)))) (List.map bytes_of_tok pk))
+  | "DMX" :: f :: s :: ch -> same (run_dmx (num (string_of_int ((int_of_string f) lor (if !fuzzing then 2 else 0)))) (parse_scripts s) (List.map bytes_of_tok ch))
   | ["PES"; h] -> let b = bytes_of_tok h in (run_pes false b, run_pes true b)
   | ["PPC"; h] -> let b = bytes_of_tok h in (run_ppc false b, run_ppc true b)
   | k :: _ -> failwith ("unknown case kind " ^ k)
   | [] -> failwith "empty case"
 
 let () =
+  if Array.length Sys.argv > 4 && Sys.argv.(4) = "fuzzing" then fuzzing := true;
   let ic = open_in Sys.argv.(1) and oc = open_out Sys.argv.(2) and os = open_out Sys.argv.(3) in
   (try
      while true do
